@@ -62,3 +62,26 @@ Definition exec_model (L G : assoc) (p : prog) : option assoc * assoc * assoc :=
 
 (* the property's reference: run the same text as the body of a function whose parameters are the supplied names *)
 Definition spec_result (L G : assoc) (p : prog) : assoc * assoc := run_ops (ops p) (L, G).
+
+(* ---- locals IS globals (what exec uses when called at module level without mappings, or with only a globals mapping): one
+   mapping M.  The scaffold's two names are parked in M while the program runs; a `global k; k = v` of the program writes M; the
+   names handed back unchanged are read from M AFTER the program has run (so a supplied name the program declares global comes
+   back with its new value).  Returns (Some result | None if the program raised, M afterwards). *)
+Definition exec_same (M : assoc) (p : prog) : option assoc * assoc :=
+  let params := filter (fun kv => is_param (gdecl p) (fst kv)) M in
+  let pt_names := map fst (filter (fun kv => passes_through (gdecl p) (fst kv)) M) in
+  let M1 := aset (aset M n_env 0) n_fun 0 in                 (* env = dict(locals()); def sandbox(...) *)
+  match raises_after p with
+  | Some i =>
+      let '(_, g) := run_ops (firstn i (ops p)) (params, M1) in
+      (None, adel (adel g n_fun) n_env)
+  | None =>
+      let '(loc, g) := run_ops (ops p) (params, M1) in
+      let res := adel (adel (aset loc n_dunder 0) n_dunder) n_builtins in
+      let pt := flat_map (fun k => match aget g k with Some v => [(k, v)] | None => [] end) pt_names in
+      (Some (setdefaults res pt), adel (adel g n_fun) n_env)
+  end.
+(* the reference: the text as the body of a function whose parameters are the supplied names that can be parameters and are not
+   declared global, the function's globals being the mapping itself *)
+Definition spec_same (M : assoc) (p : prog) : assoc * assoc :=
+  run_ops (ops p) (filter (fun kv => is_param (gdecl p) (fst kv)) M, M).
